@@ -32,6 +32,7 @@ SWAPS = [
     (r"var_index \+ 1", "var_index"), (r"var_index \+= 2", "var_index += 1"), (r"var_index \+= 1", "var_index += 2"), (r"var_index - 1", "var_index"),
     (r"\.first\(\)", ".last()"), (r"\.last\(\)", ".first()"),
 ]
+DELETE = False
 NUM = re.compile(r"(?<![\w.#x])(\d+)(?![\w.])")
 OCT = re.compile(r"0o([0-7]+)")
 
@@ -63,13 +64,15 @@ def candidates(repo):
                         new = line[:m.start()] + re.sub(pat, rep.replace("\\", "\\\\"), line[m.start():m.end()], count=1) + line[m.end():]
                         if new != line:
                             out.append((path, i, line, new, "%s -> %s" % (pat, rep)))
-                for m in NUM.finditer(line):
+                for m in ([] if DELETE else NUM.finditer(line)):
                     if "fn " in line or "derive" in line:
                         continue
                     v = int(m.group(1))
                     new = line[:m.start()] + str(v + 1) + line[m.end():]
                     out.append((path, i, line, new, "const %d -> %d" % (v, v + 1)))
-                for m in OCT.finditer(line):
+                if DELETE and s.endswith(";") and not s.startswith(("let ", "use ", "pub ", "return", "}", "log::", "const ", "static ", "type ", "mod ")) and "=>" not in s:
+                    out.append((path, i, line, "", "delete statement"))
+                for m in ([] if DELETE else OCT.finditer(line)):
                     v = int(m.group(1), 8)
                     new = line[:m.start()] + "0o%o" % (v ^ 1) + line[m.end():]
                     out.append((path, i, line, new, "octal const flip low bit"))
@@ -91,6 +94,11 @@ def main():
             seed = int(a[i + 1])
         elif a[i] == "--checks":
             checks = a[i + 1].split(",")
+        elif a[i] == "--delete-only":
+            global DELETE
+            DELETE = True
+            SWAPS.clear()
+            i -= 1
         elif a[i] == "--offset":
             offset = int(a[i + 1])
         elif a[i] == "--out":
